@@ -3,7 +3,7 @@
 // into a Go value (struct types come from reflect.StructOf so that field kinds
 // and class tags are generated, not hand-picked); building twice with the same
 // seed yields deep-equal, non-aliased twins.  Every protectable leaf carries a
-// unique 16-character canary.
+// unique 16-character canary (some of them dressed up as "encrypted:<base64url>" / "hmac-sha256:<base64url>").
 package payload
 
 import (
@@ -536,6 +536,13 @@ func (c *canaries) next() string {
 	b := make([]byte, 16)
 	for i := range b {
 		b[i] = alphabet[int(h[i])%len(alphabet)]
+	}
+	// some plaintexts look exactly like the filter's own output (prefix + base64url text): they are plaintext all the same
+	switch int(h[16]) % 9 {
+	case 0:
+		return "encrypted:" + string(b)
+	case 1:
+		return "hmac-sha256:" + string(b)
 	}
 	return string(b)
 }
